@@ -83,6 +83,7 @@ func runC13(p *core.Prog, r *core.Report) {
 	c13R3(p, r)
 	c13R4(p, r)
 	c13R5(p, r)
+	c13R6(p, r)
 }
 
 func c13R1(p *core.Prog, r *core.Report) {
@@ -529,5 +530,50 @@ func c13R5(p *core.Prog, r *core.Report) {
 					"read from '"+strings.TrimPrefix(g.ref, "var:")+"' at "+p.Pos(g.c.Pos())+", copied from '"+strings.TrimPrefix(cp.ref, "var:")+"'"+map[bool]string{true: "", false: ": the blob may not exist in the repository it is copied from (layers pulled in from another base image), so it is missing at the target"}[ok])
 			}
 		}
+	}
+}
+
+// ---------------------------------------------------------------------------------------------
+// R6 nothing collects the target while the new content is still unreferenced
+
+func c13R6(p *core.Prog, r *core.Report) {
+	const rule = "C13.R6"
+	r.Rule(rule, "no client Close before the manifests are written: the steps of a modification push layers and configs that nothing references until dagPut writes the manifests; RegClient.Close runs the layout's collector, so in package mod it may only run deferred in Apply or after dagPut", 1)
+	apply := p.Func("mod", "Apply")
+	if apply == nil {
+		r.MissingAnchor(rule, "mod.Apply")
+		return
+	}
+	var put ssa.Instruction
+	core.Calls(apply, func(c ssa.CallInstruction) {
+		if g := core.CalleeFn(c); g != nil && g.Name() == "dagPut" {
+			put = c.(ssa.Instruction)
+		}
+	})
+	if put == nil {
+		r.MissingAnchor(rule, "call of dagPut in mod.Apply")
+		return
+	}
+	n := 0
+	for _, fn := range pkgFuncs(p, "mod") {
+		lab := labeler{}
+		for _, c := range core.CallsTo(fn, func(f *types.Func) bool { return core.IsModMethod(f, ".", "RegClient", "Close") }) {
+			n++
+			label := lab.next("RegClient.Close")
+			switch {
+			case fn != apply:
+				r.Violated(rule, p.FuncName(fn), label, p.Pos(c.Pos()), "a modification step closes a reference: on an OCI layout this collects the layers and configs the earlier steps pushed, before any manifest refers to them; Apply then writes manifests whose blobs are gone")
+			default:
+				_, isDefer := c.(*ssa.Defer)
+				if isDefer || !(core.Reach{}).FromInstr(c.(ssa.Instruction))[put] {
+					r.Held(rule, p.FuncName(fn), label, p.Pos(c.Pos()), "runs after the manifests are written")
+				} else {
+					r.Violated(rule, p.FuncName(fn), label, p.Pos(c.Pos()), "dagPut is still reachable after this Close: pushed blobs are collected before a manifest refers to them")
+				}
+			}
+		}
+	}
+	if n == 0 {
+		r.Held(rule, "mod", "no RegClient.Close in package mod", "", "the collector cannot run between the steps and dagPut")
 	}
 }
